@@ -256,6 +256,11 @@ def catalogue_c11(seed, tier, rng):
         for rid in (ti, tb):
             c.add("proximity", op, [rid], {"max_distance": 4.0}, backend="dask", heavy=True,
                   chunks={rid: [[4, 4], [3, 3, 3]]}, always=(op == "proximity"))
+    # two pending results that differ in target_values only (same raster, chunks, max_distance, mode)
+    for op in ("proximity", "allocation"):
+        for tv in ([1], [2, 3]):
+            c.add("proximity", op, [ti], {"target_values": tv, "max_distance": 4.0}, backend="dask", heavy=True,
+                  chunks={ti: [[4, 4], [3, 3, 3]]}, always=(op == "proximity"))
     pv = big + [({}, "default"), ({"target_values": [1]}, "t1"), ({"target_values": [2, 3]}, "t23"),
           ({"max_distance": 2.0}, "md2"), ({"max_distance": 5}, "md5int"), ({"max_distance": 5.0}, "md5"),
           ({"distance_metric": "MANHATTAN"}, "man"), ({"distance_metric": "MANHATTAN", "max_distance": 3.0, "target_values": [3]}, "man3")]
